@@ -111,8 +111,8 @@ PROPS = {
     "C09": c09,
     "C01": progbatch,
     "C02": progbatch,
-    "C06": progbatch,
-    "C07": progbatch,
+    "C06": None,
+    "C07": None,
     "C13": None,
     "C10": rt,
     "C11": rt,
@@ -130,3 +130,12 @@ def c13(run):
 
 
 PROPS["C13"] = c13
+
+
+def c06_c07(run):
+    rt(run)
+    progbatch(run)
+
+
+PROPS["C06"] = c06_c07
+PROPS["C07"] = c06_c07
